@@ -196,20 +196,22 @@ def bracketStep (m : Mode) (pattern : Bytes) (tch : UInt8) (pIdx : Nat) (pch : U
 if let Some((_, ']')) = next { break } }` -/
 def bracketLoop (m : Mode) (pattern : Bytes) (tch : UInt8) :
     Nat → Option (Nat × UInt8) → Iter → UInt8 → Bool → BrRes
-  | 0, _, _, _, _ => .fuel
-  | n + 1, next, p, prev, matched =>
+  | n, next, p, prev, matched =>
     match next with
     | none => .abort
     | some (pIdx, pch) =>
-      match bracketStep m pattern tch pIdx pch p prev matched with
-      | .abort => .abort
-      | .panic => .panic
-      | .ok p prev matched =>
-        match p.next m with
-        | none => .abort   -- `next = None`: the next pass returns AbortAll
-        | some ((i, c), p') =>
-          if c == BRACKET_CLOSE then .done matched p'
-          else bracketLoop m pattern tch n (some (i, c)) p' prev matched
+      match n with
+      | 0 => .fuel
+      | n + 1 =>
+        match bracketStep m pattern tch pIdx pch p prev matched with
+        | .abort => .abort
+        | .panic => .panic
+        | .ok p prev matched =>
+          match p.next m with
+          | none => bracketLoop m pattern tch n none p prev matched
+          | some ((i, c), p') =>
+            if c == BRACKET_CLOSE then .done matched p'
+            else bracketLoop m pattern tch n (some (i, c)) p' prev matched
 
 /-- the `BRACKET_OPEN` arm up to (not including) the final `if matched == negated …` -/
 def bracket (m : Mode) (pattern : Bytes) (tch : UInt8) (fuel : Nat) (p : Iter) : BrRes :=
